@@ -78,6 +78,7 @@ def gen_spec(rng: np.random.Generator, tier: str, hermitian: bool = True, **forc
         # a user-chosen `atol` far below every gap (>= 1/16) and entry (>= 1/8) of the generated problem: must be neutral
         user_atol=float(rng.choice([1e-4, 1e-5, 1e-6, 1e-9])) if rng.random() < 0.15 else 0.0,
         fine_grid=bool(rng.random() < 0.3),
+        sympy_class=str(rng.choice(["mutable", "mutable", "immutable", "sparse", "immutable_sparse"])),
     )
     if spec["vtype"] == "sympy" and spec["design"] == "indices" and rng.random() < 0.35:
         spec["container"] = "sympy_matrix"
@@ -424,7 +425,9 @@ def _sp(A):
 def _value(M_f, M_x, vtype, cplx):
     """Encode a full matrix in the requested value type."""
     if vtype == "sympy":
-        return sympy.Matrix(M_x.shape[0], M_x.shape[1], lambda i, j: _gr_to_sympy(M_x[i, j]))
+        cls = {"mutable": sympy.Matrix, "immutable": sympy.ImmutableMatrix, "sparse": sympy.SparseMatrix,
+               "immutable_sparse": sympy.ImmutableSparseMatrix}[VALUE_OPTS.get("sympy_class", "mutable")]
+        return cls(M_x.shape[0], M_x.shape[1], lambda i, j: _gr_to_sympy(M_x[i, j]))
     A = M_f if (cplx or np.iscomplexobj(M_f) and np.any(M_f.imag)) else M_f.real
     if VALUE_OPTS["real_if_possible"] and np.iscomplexobj(A) and not np.any(A.imag):
         A = A.real  # dtype mixture: real perturbation although H_0 / other terms are complex
@@ -471,6 +474,9 @@ def _encode(p: Problem, rng):
     terms_enc = {}
     SPARSE_KIND["kind"] = spec.get("sparse_kind", "array")
     VALUE_OPTS["real_if_possible"] = bool(spec.get("real_pert"))
+    # sympy value class (kronecker_product & co. return immutable matrices); the dressing of `symbolic` problems and the
+    # polynomial container need mutable matrices
+    VALUE_OPTS["sympy_class"] = spec.get("sympy_class", "mutable") if not (spec.get("symbolic") or spec.get("container") == "sympy_matrix") else "mutable"
     if design == "indices" and nb >= 1:
         # interleave the blocks, preserving the order inside each block
         labels = np.array(p.block_of)
@@ -517,7 +523,7 @@ def _encode(p: Problem, rng):
                 Lfull = Qi.conj().T
         for o in p.terms_f:
             if p.exact:
-                terms_enc[o] = gr_to_sympy_matrix(gr_array(Q) @ p.terms_x[o] @ gr_array(Qi))
+                terms_enc[o] = _value(None, gr_array(Q) @ p.terms_x[o] @ gr_array(Qi), "sympy", cplx)
             else:
                 M = Q @ p.terms_f[o] @ Qi
                 if not cplx:
